@@ -40,11 +40,12 @@ theorem indexerAt_order_independent (t : List (List String × String)) (h : t.Pe
   unfold indexerAt indexerAtIn
   rw [TPath.firstMatch_perm unique_exclusive h]
 
-/-- the Go tables give every attribute the rule the property states — except `volumes.*.labels`
-(see `Neg/C04.lean`: `rule_table_matches_spec` at full strength is false on the unchanged tree) -/
-theorem rule_table_matches_spec_partial : ∀ r ∈ expectedPartial, actual r.1 = r.2 := by decide
+/-- **the Go tables give every attribute the rule the property states** (54 attribute paths; dropping a row of
+`mergeSpecials` or an indexer of `unique` breaks this).  Before the round-2 repair of `override.unique` this was
+false for `volumes.*.labels` (`Neg/C04.lean`). -/
+theorem rule_table_matches_spec : ∀ r ∈ expected, actual r.1 = r.2 := by decide
 
-example : expectedPartial.length = 53 := by decide
+example : expected.length = 54 := by decide
 
 /-- command / entrypoint / healthcheck.test take the `override` rule for *every* service name -/
 theorem wholesale_paths (s : String) :
@@ -445,13 +446,24 @@ example :
 
 /-! ## 7. Index keys -/
 
-/-- the key of a long-syntax port whose `published`, `host_ip` and `protocol` are strings and whose target is an integer
-(`port_key_spelling_independent` — the same key when `published` is written as an integer — is false, see `Neg/C04.lean`) -/
-theorem port_key_partial (kvs : KVs) (t : Int) (pub host proto : String)
-    (ht : lookup "target" kvs = some (.int t)) (hp : lookup "published" kvs = some (.str pub))
-    (hh : lookup "host_ip" kvs = some (.str host)) (hpr : lookup "protocol" kvs = some (.str proto)) :
-    index .port (.map kvs) = .ok (host ++ ":" ++ pub ++ ":" ++ toString t ++ "/" ++ proto) := by
-  simp [index, ht, hp, hh, hpr, sprintArg]
+/-- the key of a long-syntax port: `host_ip:published:target/protocol` with the defaults `0.0.0.0` and `tcp` -/
+theorem port_key (kvs : KVs) (t : Val) (ht : lookup "target" kvs = some t) :
+    index .port (.map kvs) = .ok (sprintArg 's' true ((lookup "host_ip" kvs).getD (.str "0.0.0.0")) ++ ":" ++
+      Merge.fmtV ((lookup "published" kvs).getD .null) ++ ":" ++ Merge.fmtV t ++ "/" ++
+      sprintArg 's' true ((lookup "protocol" kvs).getD (.str "tcp"))) := by
+  simp [index, ht]
+
+/-- **the port key does not depend on how `published` / `target` are spelled**: an integer and the string of its
+decimal digits give the same key (false before the round-2 repair of `portIndexer`, see `Neg/C04.lean`) -/
+theorem port_key_spelling_independent (kvs kvs' : KVs) (n t : Int)
+    (hp : lookup "published" kvs = some (.int n)) (hp' : lookup "published" kvs' = some (.str (toString n)))
+    (ht : lookup "target" kvs = some (.int t)) (ht' : lookup "target" kvs' = some (.str (toString t)))
+    (hh : lookup "host_ip" kvs = lookup "host_ip" kvs') (hpr : lookup "protocol" kvs = lookup "protocol" kvs') :
+    index .port (.map kvs) = index .port (.map kvs') := by
+  rw [port_key kvs _ ht, port_key kvs' _ ht', hp, hp', hh, hpr]
+  simp [Merge.fmtV]
+
+example : index .port (.map [("target", .int 80), ("published", .int 8080)]) = index .port (.map [("target", .str "80"), ("published", .str "8080")]) := by rfl
 
 /-- a short-syntax volume and a long-syntax volume with the same target share their key -/
 theorem volume_key_long (kvs : KVs) (t : String) (ht : lookup "target" kvs = some (.str t)) :
